@@ -17,6 +17,7 @@
  *   HIDE <code>     UNHIDE <code>     REF <code>
  *   MFLUSH                               gd_metaflush only (fragments become clean)
  *   RENAME <code> <new name> <flags hex>   MOVE <code> <frag> <flags hex>   DELETE <code> <flags hex>
+ *   UNINCLUDEN <file name>   INCN <parent file name> <file> <px|-> <sx|->     (fragments addressed by name)
  *   ADDSPEC <line> <frag>   MADDSPEC <line> <parent>   ALTERAFFIX <frag> <px|-> <sx|->   NSALTER <frag> <ns>
  *   PUTS <code> <string>   PUTC <code> <I|U|D> <hex64>   ALTERSPEC <line> <recode>   UNINCLUDE <frag>
  *   FLUSH                                metaflush, dump, close, reopen x2
@@ -574,6 +575,23 @@ int main(int argc, char **argv)
       uint64_t v = strtoull(tok[3], NULL, 16);
       gd_type_t t = tok[2][0] == 'I' ? GD_INT64 : tok[2][0] == 'U' ? GD_UINT64 : GD_FLOAT64;
       op(gd_put_constant(D, unhex(tok[1]), t, &v), D);
+    } else if (!strcmp(tok[0], "UNINCLUDEN") || !strcmp(tok[0], "INCN")) {
+      /* the fragment is named by its file name: indices change when fragments are un-included */
+      char *want = unhex(tok[1]);
+      int i, found = -1, nf = gd_nfragments(D);
+      for (i = 0; i < nf; i++) {
+        const char *fn = gd_fragmentname(D, i);
+        const char *bn = fn ? strrchr(fn, '/') : NULL;
+        if (fn && strcmp(bn ? bn + 1 : fn, want) == 0) found = i;
+      }
+      gd_error(D);
+      if (found < 0) { printf("OP %d -1 0\n", opn); }
+      else if (tok[0][0] == 'U') op(gd_uninclude(D, found, 0), D);
+      else {
+        char *file = unhex(tok[2]), *px = unhex(tok[3]), *sx = unhex(tok[4]);
+        op(gd_include_affix(D, file, found, px, sx,
+              GD_CREAT | (gd_endianness(D, found) & (GD_BIG_ENDIAN | GD_LITTLE_ENDIAN))), D);
+      }
     } else if (!strcmp(tok[0], "ADDSPEC")) {
       op(gd_add_spec(D, unhex(tok[1]), atoi(tok[2])), D);
     } else if (!strcmp(tok[0], "MADDSPEC")) {
